@@ -117,12 +117,10 @@ Fixpoint feed (s : pstate) (bs : list byte) : pstate * list token :=
   end.
 
 (* ---- well_known_virtual_key.cpp --------------------------------------- *)
-(* atoi on a digit-only string as glibc computes it: strtol saturates at
-   LONG_MAX, the result is converted to int (two's complement truncation) *)
+(* argument_to_int: std::from_chars on a digit-only (possibly empty) string,
+   saturating at INT_MAX when the value does not fit an int *)
 Definition atoi (ds : list byte) : Z :=
-  let v := N.min (read_digits 0 ds) 9223372036854775807 in
-  let w := (Z.of_N v mod 4294967296)%Z in
-  if (w <? 2147483648)%Z then w else (w - 4294967296)%Z.
+  Z.of_N (N.min (read_digits 0 ds) 2147483647).
 
 Definition convert_modifier (arg : list byte) : N :=
   match atoi arg with
